@@ -209,6 +209,7 @@ func runCheck(p *Prog, prop, tier string, timeout, workers int, verbose bool) in
 		addStruct("global.state", p.globalStateScan(renderPkgs))
 	case "C13":
 		addStruct("global.state", p.globalStateScan([]string{"/soyjs", "/soymsg", "/parsepasses", "/parse", "/template", "/ast", ""}))
+		addStruct("goroutine.covered", p.goStmtScan([]string{"/soyjs", "/soymsg", "/parsepasses", "/parse", "/template", "/ast", "/data", "/errortypes", ""}))
 	case "C10":
 		// ids and names must not depend on other messages or earlier compilations
 		addStruct("global.state", p.globalStateScan([]string{"/soymsg", "/parsepasses", "/ast"}))
